@@ -194,7 +194,15 @@ func checkC01Stream(doc []byte, rs *ReaderScn, obs *streamObs) *Failure {
 
 // checkC01Memory: the in-memory entry point (pre-filled buffer, no reads).
 func checkC01Memory(doc []byte) *Failure {
-	buf := append([]byte(nil), doc...)
+	// the caller's slice has spare capacity (0, 1, 3, 4, 64, ... bytes): code
+	// that appends to or pads the caller's slice in place only shows then
+	spare := []int{0, 1, 3, 4, 16, 64, 3 * len(doc)}[(len(doc)+int(hashBytes(0, doc)%7))%7]
+	backing := make([]byte, len(doc)+spare)
+	for i := range backing {
+		backing[i] = 0xAA
+	}
+	buf := backing[:len(doc)]
+	copy(buf, doc)
 	blocks, refs := commonmark.Parse(buf)
 	if !bytes.Equal(buf, doc) {
 		return &Failure{Check: "input-mutated", Observed: "Parse modified the caller's buffer: " + firstDiff(string(doc), string(buf))}
